@@ -1418,7 +1418,7 @@ def adversarial_worlds(rng, n_random):
         }
     IDENT_POS = ("field", "param", "case")        # positions spelled through to_c_ident without a namespace prefix
     # 1. keywords the table knows: must build in every position
-    for kw in rng.sample(C_KEYWORDS_IN_TABLE, 6) + ["ret", "err", "new", "this", "bool", "true", "stdin"]:
+    for kw in rng.sample(C_KEYWORDS_IN_TABLE, 3) + ["ret", "err", "new", "bool"]:
         for pos, body in positions(kw).items():
             add(f"kw-{kw}-{pos}", None, None, body, f"escaped keyword `{kw}` as {pos}")
     # 2. keywords the table misses
@@ -1429,7 +1429,7 @@ def adversarial_worlds(rng, n_random):
                 r"restrict requires|after 'typeof'|expected identifier|expected expression|expected member name" if bad else None,
                 body, f"C keyword `{kw}` (absent from to_c_ident) as {pos}")
     # 3. upper-case spellings: looked up before case folding
-    for kw in rng.sample(["int", "char", "static", "const", "void", "if", "for", "struct", "return", "default"], 4):
+    for kw in rng.sample(["int", "char", "static", "const", "void", "if", "for", "struct", "return", "default"], 3):
         for pos, body in positions(kw.upper()).items():
             bad = pos in IDENT_POS
             add(f"kwupper-{kw}-{pos}", "c-keyword-after-case-folding" if bad else None,
